@@ -81,15 +81,31 @@ Definition out_field (base : settings) (k : str) (i : iout) : option pv :=
   match i with IOk d _ => Some (sget k (overlay base d)) | IErr _ _ => None end.
 
 (* the command line value wins: every field set on the command line has the value that the
-   command line alone produces *)
+   command line alone produces.  One field is derived afterwards: exclude_dir is the command line
+   value (normalised against the project directory) followed by the effective output_dir of the
+   same run unless that is already in the list. *)
+Definition cli_field_wins (base : settings) (projdir : str) (i only : iout) (kv : str * pv) : bool :=
+  match field_ty (fst kv) with
+  | None => true
+  | Some _ =>
+    if str_eqb (fst kv) (s "exclude_dir") then
+      match snd kv, out_field base (s "exclude_dir") i, out_field base (s "output_dir") i with
+      | PList vals, Some (PList got), Some od =>
+        match all_strs vals with
+        | Some xs =>
+          let l := map (fun x => PPath (norm_path projdir x)) xs in
+          list_eqb pv_eqb got (if existsb (pv_eqb od) l then l else l ++ [od])
+        | None => false
+        end
+      | _, _, _ => false
+      end
+    else opt_eqb pv_eqb (out_field base (fst kv) i) (out_field base (fst kv) only)
+  end.
+
 Definition cli_wins (base : settings) (c : gcase) (i : iout) : bool :=
   match i, g_clionly c with
   | IOk _ _, IOk _ _ =>
-    forallb (fun kv => match field_ty (fst kv) with
-                       | Some _ => opt_eqb pv_eqb (out_field base (fst kv) i)
-                                                  (out_field base (fst kv) (g_clionly c))
-                       | None => true
-                       end) (g_cli c)
+    forallb (cli_field_wins base (norm_path (g_cwd c) (g_dir c)) i (g_clionly c)) (g_cli c)
   | _, _ => true
   end.
 
@@ -170,11 +186,7 @@ Definition judge_raw (c : rcase) : nat :=
     | SCli only =>
       let ok := match r_out c, only with
                 | IOk _ _, IOk _ _ =>
-                  forallb (fun kv => match field_ty (fst kv) with
-                                     | Some _ => opt_eqb pv_eqb (out_field base (fst kv) (r_out c))
-                                                                (out_field base (fst kv) only)
-                                     | None => true
-                                     end) (i_cli i)
+                  forallb (cli_field_wins base (project_dir i) (r_out c) only) (i_cli i)
                 | _, _ => true
                 end in
       verdict mismatch (negb ok) 0
